@@ -8,7 +8,7 @@ line; the programs are compiled at optimisation configs 0 and 31 and run on both
 (4) [TV] spec/CollTrace.tla replays every operation on the abstract registers and compares what each build
 printed with the abstract observation.  A printed result that differs is a VIOLATION unless an open known
 finding (known-findings.json, property C18) covers it."""
-import glob, json, os, random, re, time
+import glob, json, os, random, re, shutil, time
 from concurrent.futures import ThreadPoolExecutor
 from vlib import *
 import progcommon as pc
@@ -637,10 +637,10 @@ def judge(d, tag, rows, kfs, stats, chunk_rows=60000, jobs=6):
         marks = {"BAD": [], "KNOWN": []}
         for t, val in v.printed:
             if t in marks:
-                num, _, exp = val.partition(",")
-                marks[t].append(a + int(num) - 1)
-                if t == "BAD":
-                    rows[a + int(num) - 1]["expected_parts"] = exp.strip()
+                marks[t].append(a + int(val) - 1)
+        # the abstract observation of a bad record (TLC may wrap a long tuple over several lines)
+        for mm in re.finditer(r'<<\s*"EXPECTED",\s*(\d+),\s*"(.*?)"\s*>>', v.out, re.S):
+            rows[a + int(mm.group(1)) - 1]["expected_parts"] = re.sub(r"\s+", "", mm.group(2))
         if v.violated == "Conforms" or marks["BAD"]:
             if not marks["BAD"] or v.violated != "Conforms":
                 log(v.out[-3000:])
@@ -655,7 +655,7 @@ def judge(d, tag, rows, kfs, stats, chunk_rows=60000, jobs=6):
 
 def describe(row):
     """who printed what, for the replay file"""
-    return {"op": row["o"], "printed": row["lines"], "expected_parts_TLA": row.get("expected_parts")}
+    return {"op": row["o"], "printed": row["lines"], "expected_parts": row.get("expected_parts")}
 
 
 def blame(row):
@@ -768,17 +768,25 @@ def slices(xs, n):
         yield xs[i:i + n]
 
 
+def scratch(name):
+    """a fresh scratch directory under out/C18 (programs, records, traces of one run)"""
+    d = os.path.join(outdir(PID), name)
+    shutil.rmtree(d, ignore_errors=True)
+    os.makedirs(d)
+    return d
+
+
 def run(tier):
     t0 = time.time()
-    d = outdir(PID)
+    d = scratch("run")
     build_harness()
     std = std_sources()
     kfs = kf_list()
     quick = tier == "quick"
     excluded = {op for k in kfs if k.get("kind") == "uncompilable" for op in k.get("ops", [])}
     # 1. the abstract model: algebraic laws over keys {1,2,3}, all operation sequences up to Depth
-    mc = tlc("CollectionsMC", "CollectionsMCquick.cfg" if quick else "CollectionsMCthorough.cfg", workers=8,
-             timeout=1500, tag="c18mc", xmx="8g")
+    mc = tlc("CollectionsMC", "CollectionsMCquick.cfg" if quick else "CollectionsMCthorough.cfg", workers=8 if quick else 12,
+             timeout=1500, tag="c18mc", xmx="16g")
     tlc_must_pass(mc, "Collections.tla model checking")
     log(f"[c18] model checked: {mc.distinct} states / {mc.generated} transitions, depth {mc.depth - 1}, {mc.wall:.0f}s")
     # 2. [BR] operation sequences enumerated by TLC: all of length 1, all (thorough) / a seeded sample (quick) of
@@ -827,12 +835,12 @@ def run(tier):
     log(f"[c18] TLC-generated behaviours executed at {time.time() - t0:.0f}s")
     # 3. seeded random sequences of length <= 60, small and wide key range
     rng = random.Random(SEED)
-    n_rand = 1500 if quick else 36000
+    n_rand = 2500 if quick else 60000
     done = 0
     budget = 150 if quick else 1500      # seconds for this phase; the count executed is reported
     t_r = time.time()
     while done < n_rand and time.time() - t_r < budget:
-        n = min(1500 if quick else 3000, n_rand - done)
+        n = min(1250 if quick else 4000, n_rand - done)
         part = [random_sequence(rng, rng.randint(1, 60), wide=((done + i) % 2 == 1), avoid=excluded) for i in range(n)]
         camp.submit("random", part, 25)
         done += n
@@ -866,6 +874,10 @@ def run(tier):
         seen_ops.add(op)
         prefix = f["prefix"]
         small = minimise(d, prefix, std, kfs, op) if len(prefix) > 1 and not os.environ.get("VERIF_C18_NOMIN") else prefix
+        if small != prefix:     # what the minimal sequence prints
+            r2, b2, _ = run_and_judge(d, "minimal", [(0, small)], std, kfs, {}, batch=1)
+            if b2:
+                row = r2[b2[0]]
         path = save_replay(PID, "opseq", {"source": f["origin"], "ops": small, "original_length": len(prefix), "std_dir": STD_DIR},
                            "every build prints the canonical rendering of the abstract result (CollTrace!Conforms)",
                            {"failing_op": describe(row), "blame": blame(row)})
@@ -912,7 +924,7 @@ def run(tier):
 
 def replay(path):
     case = json.load(open(path))["case"]
-    d = outdir(PID)
+    d = scratch("replay")
     build_harness()
     std = std_sources()
     stats = {}
